@@ -14,7 +14,16 @@ def programs(ctx):
              ("tuple", "u8", True, "T: Copy", "Deref, DerefMut, bound(T: core::fmt::Debug)"),
              ("named", "Option<u8>", True, "T: Copy + core::fmt::Debug", "Deref(bound(T: Clone, ..)), DerefMut(bound(T: Clone))"),
              ("tuple", "W<u8>", True, "T: Copy", "Deref(bound()), DerefMut, bound(..)")]
-    return [fam2.c18_prog("p_%04d" % i, *s) for i, s in enumerate(specs)]
+    out = [fam2.c18_prog("p_%04d" % i, *s) for i, s in enumerate(specs)]
+    # DerefMut derived next to a hand-written Deref whose Target is NOT the field type: deref_mut would have to return something else
+    # than the field, so the derive must be refused (E0053), never silently coerced to the pointee
+    for j, (decl, fld, tgt) in enumerate([("pub struct X(pub Box<u8>);", "0", "u8"), ("pub struct X<T> where T: Copy { pub a: Box<T> }", "a", "T"), ("pub struct X(pub &'static mut u8);", "0", "u8")]):
+        g = "<T: Copy>" if "<T>" in decl else ""
+        gi = "<T>" if g else ""
+        text = ("#[derive_ex::derive_ex(DerefMut)]\n%s\nimpl%s core::ops::Deref for X%s { type Target = %s; fn deref(&self) -> &%s { &self.%s } }\n"
+                "pub fn replay(_h: &str, _b: &[u8]) -> (bool, String) { (true, String::new()) }\n" % (decl, g, gi, tgt, tgt, fld))
+        out.append(E.Prog("p_n%02d" % j, text, [], {"describe": "derive_ex(DerefMut) %s + hand-written Deref<Target = %s>  [must be refused]" % (decl, tgt)}, expect_compile=False))
+    return out
 
 
 def canary():
